@@ -79,6 +79,10 @@ def regen_pins():
         if rc == 0:
             # Gen/Regex.v (trusted restatement of the regex crate) is re-validated against the real crate's answers
             rc, out, _ = sh([sys.executable, os.path.join(VERIF, "tools", "rx_crate_examples.py")], timeout=1200)
+        if rc == 0:
+            # Gen/RegexSyntax.v (trusted restatement of the crate's PARSER) and the Captures / closure-replacer / HashMap
+            # restatements of Gen/FmapRt.v, likewise
+            rc, out, _ = sh([sys.executable, os.path.join(VERIF, "tools", "rx_syntax_examples.py")], timeout=1800)
     if rc != 0:
         raise RuntimeError("pins.py failed: " + out)
 
